@@ -32,4 +32,55 @@ theorem nodup_eraseDups {α} [BEq α] [LawfulBEq α] (l : List α) : l.eraseDups
           simp at hn; omega
         exact ih _ hlt _ rfl
 
+/-! ### first-come de-duplication -/
+
+/-- invariant of the loop, for any starting accumulator -/
+theorem dedup_fold (m : Mapping) (codes acc : List PCode) :
+    let r := codes.foldl (fun acc c => if acc.any (fun e => pydCodeEq m c e) then acc else acc ++ [c]) acc
+    (∃ t, r = acc ++ t ∧ t.Sublist codes ∧
+      (∀ c ∈ codes, ∃ e ∈ r, pydCodeEq m c e = true ∨ c ∈ t) ∧
+      t.Pairwise (fun a b => pydCodeEq m b a = false) ∧ (∀ b ∈ t, ∀ a ∈ acc, pydCodeEq m b a = false)) := by
+  induction codes generalizing acc with
+  | nil => exact ⟨[], by simp⟩
+  | cons c rest ih =>
+    simp only [List.foldl_cons]
+    by_cases hany : acc.any (fun e => pydCodeEq m c e) = true
+    · simp only [hany, ↓reduceIte]
+      obtain ⟨t, hr, hsub, hcov, hpw, hacc⟩ := ih acc
+      refine ⟨t, hr, hsub.cons c, ?_, hpw, hacc⟩
+      intro x hx
+      rcases List.mem_cons.mp hx with rfl | hx
+      · obtain ⟨e, he, hee⟩ := List.any_eq_true.mp hany
+        exact ⟨e, by rw [hr]; exact List.mem_append_left _ he, Or.inl hee⟩
+      · exact hcov x hx
+    · simp only [hany, Bool.false_eq_true, ↓reduceIte]
+      obtain ⟨t, hr, hsub, hcov, hpw, hacc⟩ := ih (acc ++ [c])
+      refine ⟨c :: t, by rw [hr]; simp, hsub.cons₂ c, ?_, ?_, ?_⟩
+      · intro x hx
+        rcases List.mem_cons.mp hx with rfl | hx
+        · exact ⟨x, by rw [hr]; simp, Or.inr (by simp)⟩
+        · obtain ⟨e, he, hee⟩ := hcov x hx
+          exact ⟨e, he, hee.imp id (fun h => List.mem_cons_of_mem _ h)⟩
+      · rw [List.pairwise_cons]
+        exact ⟨fun b hb => hacc b hb c (by simp), hpw⟩
+      · intro b hb a ha
+        rcases List.mem_cons.mp hb with rfl | hb
+        · have := List.any_eq_false.mp (by simpa using hany) a ha
+          simpa using this
+        · exact hacc b hb a (List.mem_append_left _ ha)
+
+theorem dedupCodes_spec (m : Mapping) (codes : List PCode) :
+    (dedupCodes m codes).Sublist codes ∧
+    (∀ c ∈ codes, ∃ e ∈ dedupCodes m codes, pydCodeEq m c e = true ∨ c = e) ∧
+    (dedupCodes m codes).Pairwise (fun a b => pydCodeEq m b a = false) := by
+  obtain ⟨t, hr, hsub, hcov, hpw, _⟩ := dedup_fold m codes []
+  have hrt : dedupCodes m codes = t := by unfold dedupCodes; simpa using hr
+  rw [hrt]
+  refine ⟨hsub, ?_, hpw⟩
+  intro c hc
+  obtain ⟨e, he, hee⟩ := hcov c hc
+  rcases hee with h | h
+  · exact ⟨e, by rw [← hrt]; exact he, Or.inl h⟩
+  · exact ⟨c, h, Or.inr rfl⟩
+
 end HdVerif.SegMetaLemmas
